@@ -76,6 +76,8 @@ class Checker:
         if resources:
             self.reserved |= resources
         self.tv_bounds = {}
+        self.block_env = {}
+        self._keep = []
 
     # ------------------------------------------------------------------ util
     def ok(self, rule):
@@ -94,16 +96,19 @@ class Checker:
         return strip_v(terms.to_term(x))
 
     # ----------------------------------------------------------- type relation
-    def with_bounds(self, x):
-        """Re-attach the bounds of the type variables in scope (for v <: bound)."""
+    def with_bounds(self, x, depth=0):
+        """Re-attach the bounds of the type variables in scope (for v <: bound),
+        transitively (D : R : Float)."""
         k = x[0]
         if k == 'v':
             b = self.tv_bounds.get(x[1])
+            if b is not None and depth < 8:
+                b = self.with_bounds(b, depth + 1)
             return ('v', x[1], INV, b)
         if k == 'c':
-            return ('c', x[1], tuple(self.with_bounds(a) for a in x[2]))
+            return ('c', x[1], tuple(self.with_bounds(a, depth + 1) for a in x[2]))
         if k == 'w':
-            return ('w', x[1], None if x[2] is None else self.with_bounds(x[2]))
+            return ('w', x[1], None if x[2] is None else self.with_bounds(x[2], depth + 1))
         return x
 
     def assignable(self, s, t):
@@ -212,7 +217,7 @@ class Checker:
         if isinstance(e, ast.Block):
             if not e.body:
                 raise Unk('empty-block')
-            return self.ty(e.body[-1], env)
+            return self.ty(e.body[-1], self.block_env.get(id(e), env))
         if isinstance(e, ast.Variable):
             d = env.lookup(str(e.name))
             if d is None:
@@ -298,7 +303,32 @@ class Checker:
 
     # ----------------------------------------------------------------- checks
     def expect(self, rule, e, want, env, what):
-        """value of expression e flows into a position of type `want`."""
+        """value of expression e flows into a position of type `want`.
+        Conditionals and blocks are checked bidirectionally: each branch / the
+        last element against `want` (a conditional's own recorded type is a
+        heuristic join, not what the context expects)."""
+        ast = self.ast
+        if isinstance(e, ast.Conditional):
+            tenv = env
+            if isinstance(e.cond, ast.Is) and isinstance(e.cond.lexpr, ast.Variable) and not e.cond.operator.is_not:
+                tenv = env.child()
+                tenv.casts = dict(env.casts)
+                tenv.casts[str(e.cond.lexpr.name)] = self.t(e.cond.rexpr)
+            self.expect('COND', e.true_branch, want, tenv, what + ' (true branch)')
+            self.expect('COND', e.false_branch, want, env, what + ' (false branch)')
+            return
+        if isinstance(e, ast.Block):
+            if not e.body:
+                self.skip(rule, 'empty-block')
+                return
+            benv = self.block_env.get(id(e))
+            if benv is None:
+                self.skip(rule, 'block-not-visited')
+                return
+            if env.casts and not benv.casts:
+                benv.casts = env.casts
+            self.expect(rule, e.body[-1], want, benv, what)
+            return
         try:
             have = self.ty(e, env)
         except Unk as u:
@@ -603,6 +633,8 @@ class Checker:
 
     def visit_block(self, block, env):
         ast = self.ast
+        self.block_env[id(block)] = env
+        self._keep.append(block)
         local_names = []
         for s in block.body:
             if isinstance(s, ast.VariableDeclaration):
@@ -645,7 +677,6 @@ class Checker:
             return
         if isinstance(e, ast.Conditional):
             self.visit_expr(e.cond, env)
-            want = self.t(e.inferred_type)
             self.expect('COND', e.cond, self.bool_t, env, 'condition')
             tenv = env.child(keep_fn=True)
             if isinstance(e.cond, ast.Is) and isinstance(e.cond.lexpr, ast.Variable) and not e.cond.operator.is_not:
@@ -653,8 +684,6 @@ class Checker:
                 tenv.casts[str(e.cond.lexpr.name)] = self.t(e.cond.rexpr)
             self.visit_expr(e.true_branch, tenv)
             self.visit_expr(e.false_branch, env.child(keep_fn=True))
-            self.expect('COND', e.true_branch, want, tenv, 'true branch')
-            self.expect('COND', e.false_branch, want, env, 'false branch')
             return
         if isinstance(e, ast.Is):
             self.visit_expr(e.lexpr, env)
